@@ -53,6 +53,10 @@ def gen_cases(tier, seed):
         nnuc = int(rng.integers(1, 6))
         nuc = [list(shells[k % nsh]["c"]) if k < nsh and rng.random() < 0.7 else [float(v) for v in rng.normal(size=3) * 1.5] for k in range(nnuc)]
         Z = [float(v) for v in np.exp(rng.uniform(np.log(0.1), np.log(100), size=nnuc)) * rng.choice([-1.0, 1.0], size=nnuc, p=[0.35, 0.65])]
+        zint = bool(i % 8 == 6)
+        if zint:
+            # atomic numbers handed over as an integer array, thresholds as Python ints
+            Z = [float(np.sign(z) * max(1.0, round(abs(z)))) for z in Z]
         npts = bases.npts_pick(rng, 31) if i % 5 else int(rng.integers(1, 6))
         pts = []
         pcl = set()
@@ -103,8 +107,10 @@ def gen_cases(tier, seed):
             thr += [1e-12, 1e-9, float(10.0 ** rng.uniform(-7, -3)), 1e-200, 5e-324]
         if i % 9 == 4:
             thr.append(1e200)  # beyond every distance by any margin: every nucleus is left out everywhere
-        cases.append({"shells": shells, "points": pts, "nuc": nuc, "Z": Z, "dm": dm, "transform": T, "thresholds": thr,
-                      "classes": classes + sorted(pcl) + [tcls, dcls, "nnuc:%d" % nnuc] + (["Z:negative"] if min(Z) < 0 else []) + (["Z:big"] if max(abs(z) for z in Z) > 5 else []),
+        if zint:
+            thr += [1.0, 2.0]
+        cases.append({"shells": shells, "points": pts, "nuc": nuc, "Z": Z, "dm": dm, "transform": T, "thresholds": thr, "Z_int": zint,
+                      "classes": classes + sorted(pcl) + [tcls, dcls, "nnuc:%d" % nnuc] + (["Z:negative"] if min(Z) < 0 else []) + (["Z:big"] if max(abs(z) for z in Z) > 5 else []) + (["Z:int-array", "thr:int"] if zint else []),
                       "cost": len(pts) * sum((3 + a + b) ** 3 * len(x["e"]) * len(y["e"]) for x, a in zip(shells, ls) for y, b in zip(shells, ls))})
     cases += bases.argrep_variants("C14", seed, tier, cases, 6, ok=lambda c: "shells" in c and c.get("kind") in (None, "whole", "kernel", "perm", "real"))  # constructor arguments in other in-memory representations
     return cases
@@ -142,7 +148,9 @@ def run_case(case):
         nucpot = terms.sum(axis=1)
         ref = nucpot - elec
         scale = np.where(np.isfinite(nucpot), np.abs(np.where(np.isfinite(terms), terms, 0.0)).sum(axis=1), 0.0) + elec_sc + 1e-300
-        out = cm.call(electrostatic_potential, cm.build(shells), cm.rep(dm, rkind), cm.rep(pts, rkind), cm.rep(nuc, rkind), cm.rep(Z, rkind), threshold_dist=float(thr), **kw)
+        zarg = np.array(Z, dtype=int) if case.get("Z_int") else cm.rep(Z, rkind)
+        targ = int(thr) if (case.get("Z_int") and float(thr) == int(thr) and thr < 1e9) else float(thr)
+        out = cm.call(electrostatic_potential, cm.build(shells), cm.rep(dm, rkind), cm.rep(pts, rkind), cm.rep(nuc, rkind), zarg, threshold_dist=targ, **kw)
         evals += 1
         if keep.any() and (~keep).any():
             mixed = True
